@@ -522,12 +522,17 @@ PROPS["C18"] = {
         "one state with |A| self-loops (a changed digest alone is reported in the counters, not as a violation: only answers "
         "and the serialized form decide). (3) schedules: shuttle::check_dfs over 2 threads x 3 queries and 3 threads x 2 "
         "queries (colliding arguments) on the shared structure, every interleaving at query granularity, each thread must "
-        "obtain the sequential answers. (4) the same alphabets on 8 free-running OS threads (sampling pass). states = distinct "
-        "(bytes, arena digest) states + schedules; transitions = queries executed.",
+        "obtain the sequential answers. (4) preemption points at machine-instruction granularity (bound 1): a query runs with the "
+        "x86 trap flag set; at every instruction boundary inside the executable the SIGTRAP handler forks, the child runs the "
+        "interfering query right there, lets the first query finish and exits with the verdict - after a prefix history of "
+        "neighbouring queries (k-1, k, k+1). Full budget (260 / 1200 triples, point cap 12000 / 120000 per subject) for subjects "
+        "whose queries write to the arena, one token triple otherwise (read-only steps commute). (5) the same alphabets on 8 "
+        "free-running OS threads (a sampling pass, never the sole decider). states = distinct (bytes, arena digest) states + "
+        "schedules + preemption points; transitions = queries executed.",
         TRUST + ["shuttle 0.9.3 (cooperative DFS scheduler: preemption only at the yield between queries)",
                  "intra-query preemption is covered by the independence argument: when the arena digest never changes no query "
                  "writes shared memory, so read-only steps commute"],
-        "depth 2 over <= 90 queries (thorough: depth 3 over 40), 2x3 and 3x2 thread harnesses; state kept in statics behind "
-        "atomics is visible only through answers."),
+        "depth 2 over <= 90 queries (thorough: depth 3 over 40), 2x3 and 3x2 thread harnesses, preemption bound 1 with a point "
+        "cap (reported in vacuity_counters.caps_hit); sequential consistency only; state kept in statics is visible only through answers."),
     "vacuity": lambda results: None if _merge_counters(results)[0].get("schedules", 0) > 1000 and _merge_counters(results)[0].get("subjects_with_one_reachable_state", 0) > 10 else "too few schedules or subjects",
 }
